@@ -497,10 +497,30 @@ func Run(dir string, seed uint64, n int) error {
 	for _, res := range runSessions(sessionJobs(root, n/40, n/20), sessionWorkers()) {
 		addJob(res.kind)(res.term, res.label, res.kinds, res.nsteps)
 	}
+	// ---- queue clause: the proportion plugin's books on real sessions (queues.go) ----
+	nq := n / 8
+	if nq < 12 {
+		nq = 12
+	}
+	for _, res := range runSessions(queueJobs(root, nq), sessionWorkers()) {
+		out.Add(res.term, res.label)
+		out.Count("stream:queue")
+		for k, v := range res.kinds {
+			out.CountN("queue:"+k, v)
+		}
+		out.CountN("queue-observations", res.nsteps)
+		if res.nsteps >= 2 {
+			out.NonTrivial(res.label)
+		}
+		if !sampled["queue"] && !strings.Contains(res.label, "corpus") {
+			sampled["queue"] = true
+			jobSamples = append(jobSamples, res.label)
+		}
+	}
 	if len(out.Samples) > 2 {
 		out.Samples = out.Samples[:2]
 	}
 	out.Samples = append(out.Samples, jobSamples...)
-	out.Stats["rule"] = "operation programs on one real NodeInfo (3-8 pods of kinds cpu/whole/fraction/multi-fraction/gpu-memory/MIG/best-effort/reservation; 0-4 GPUs; half of the nodes carry a device-memory label of 100 / 200 / 16384 / 24564 / 40960 / 81920 MiB and gpu-memory requests then sit around the device size and the 1/100 rounding steps of the portion). Stream 'session-like' replays what snapshot construction and statement operations do to a node (placement decided by the real IsTaskAllocatable / GetNodePreferableGpuForSharing, evict, undo in LIFO order); stream 'arbitrary' applies add/remove/update/consolidate with any active status and any groups, including error paths. Non-trivial = at least 3 operations of at least 2 kinds; distinct by the full operation list. WORKLOAD CLAUSE (streams job-ops / statement / cycle): real PodGroupInfo objects observed after every operation - the pods held with their statuses next to Allocated (structured and vector), GetActiveAllocatedTasksCount, PodStatusIndex member by member, GetNumPendingTasks / GetNumGatedTasks / GetNumActiveUsedTasks / GetNumAllocatedTasks / GetNumAliveTasks / GetActivelyRunningTasksCount, IsGangSatisfied / IsReadyForScheduling / IsStale / ShouldPipelineJob / IsElastic and every PodSet's minAvailable, pod count, GetNumActiveAllocatedTasks / GetNumActiveUsedTasks / GetNumAliveTasks / GetNumPendingTasks / GetNumGatedTasks and predicates. job-ops: n/3 programs of 6-24 AddTaskInfo / UpdateTaskStatus calls on one PodGroupInfo (2-6 pods: cpu-only, whole GPU, fraction incl. 0.2 / 0.3 / 0.33, multi-fraction, gpu-memory, MIG, extended resource, best effort; one default pod set or 2-3 named pod sets flat or under sub-group sets; a pod in twelve names a sub group the job does not have; updates of pods the job does not hold) plus a corpus run every time: one pod through ALL 144 ordered status pairs there and back, the pending gang of seeded/C14-4 nominated and un-nominated, and three histories the scheduler does not issue (stale copy, stale copy without an index for its status, pod added twice: correspondence only). statement: n/40 random programs of 6-28 commands on real Statements of sessions assembled by cycle.Build from generated clusters (common.AllocateJob with its own checkpoints / rollbacks, placement of one pod through Statement.Allocate / Pipeline / gpu_sharing.AllocateFractionalGPUTaskToNode, Evict, Unevict, Checkpoint, Rollback, Discard, Commit, ConvertAllAllocatedToPipelined) plus the seeded change's scenarios (pipeline then rollback / discard, AllocateJob of a gang that does not fit). cycle: n/20 generated clusters through the real actions (allocate and a random subset of consolidation, reclaim, preempt, stalegangeviction) plus the seeded change's allocate scenario. In both session streams an event handler registered after the plugins observes the affected job inside EVERY allocate / deallocate event (every Statement primitive and every undo of it, including the scenario solvers' simulations), and all jobs are observed after every command / action. Non-trivial (workload) = at least 3 observations."
+	out.Stats["rule"] = "operation programs on one real NodeInfo (3-8 pods of kinds cpu/whole/fraction/multi-fraction/gpu-memory/MIG/best-effort/reservation; 0-4 GPUs; half of the nodes carry a device-memory label of 100 / 200 / 16384 / 24564 / 40960 / 81920 MiB and gpu-memory requests then sit around the device size and the 1/100 rounding steps of the portion). Stream 'session-like' replays what snapshot construction and statement operations do to a node (placement decided by the real IsTaskAllocatable / GetNodePreferableGpuForSharing, evict, undo in LIFO order); stream 'arbitrary' applies add/remove/update/consolidate with any active status and any groups, including error paths. Non-trivial = at least 3 operations of at least 2 kinds; distinct by the full operation list. WORKLOAD CLAUSE (streams job-ops / statement / cycle): real PodGroupInfo objects observed after every operation - the pods held with their statuses next to Allocated (structured and vector), GetActiveAllocatedTasksCount, PodStatusIndex member by member, GetNumPendingTasks / GetNumGatedTasks / GetNumActiveUsedTasks / GetNumAllocatedTasks / GetNumAliveTasks / GetActivelyRunningTasksCount, IsGangSatisfied / IsReadyForScheduling / IsStale / ShouldPipelineJob / IsElastic and every PodSet's minAvailable, pod count, GetNumActiveAllocatedTasks / GetNumActiveUsedTasks / GetNumAliveTasks / GetNumPendingTasks / GetNumGatedTasks and predicates. job-ops: n/3 programs of 6-24 AddTaskInfo / UpdateTaskStatus calls on one PodGroupInfo (2-6 pods: cpu-only, whole GPU, fraction incl. 0.2 / 0.3 / 0.33, multi-fraction, gpu-memory, MIG, extended resource, best effort; one default pod set or 2-3 named pod sets flat or under sub-group sets; a pod in twelve names a sub group the job does not have; updates of pods the job does not hold) plus a corpus run every time: one pod through ALL 144 ordered status pairs there and back, the pending gang of seeded/C14-4 nominated and un-nominated, and three histories the scheduler does not issue (stale copy, stale copy without an index for its status, pod added twice: correspondence only). statement: n/40 random programs of 6-28 commands on real Statements of sessions assembled by cycle.Build from generated clusters (common.AllocateJob with its own checkpoints / rollbacks, placement of one pod through Statement.Allocate / Pipeline / gpu_sharing.AllocateFractionalGPUTaskToNode, Evict, Unevict, Checkpoint, Rollback, Discard, Commit, ConvertAllAllocatedToPipelined) plus the seeded change's scenarios (pipeline then rollback / discard, AllocateJob of a gang that does not fit). cycle: n/20 generated clusters through the real actions (allocate and a random subset of consolidation, reclaim, preempt, stalegangeviction) plus the seeded change's allocate scenario. In both session streams an event handler registered after the plugins observes the affected job inside EVERY allocate / deallocate event (every Statement primitive and every undo of it, including the scenario solvers' simulations), and all jobs are observed after every command / action. Non-trivial (workload) = at least 3 observations. QUEUE CLAUSE (stream queue): max(n/8,12) real sessions opened with all default plugins (the proportion plugin instance of the session is kept) on clusters of the shared generator extended with an empty node of another device memory (half of the cases), pods moved to Bound / Binding / Allocated / Gated / Succeeded / Failed / Unknown, 1-3 extra jobs with pending gpu-memory (one and 2-3 devices), odd-fraction (0.3 / 0.33 / 0.2 / 0.7, one or two devices), whole-GPU and cpu-only pods, preemptible and non-preemptible, and a queue forest of depth 1-3 (leaf queues top level; under one or two departments; departments under an organisation or next to it); ClusterInfo.MinNodeGPUMemory is the smallest device memory over the nodes in half of the cases and the value the snapshot computes today (100) in the others. Plus the snapshot of seeded/C14-5. Observed for every queue: Allocated, AllocatedNotPreemptible and Request of CPU / memory / GPU as exact float64 values (+Inf / NaN tagged) from the plugin own rs.QueueAttributes and Session.QueueAllocatedResources, next to all pods with status and node: at session open, inside the first 24 allocate / deallocate events, after every command of a random Statement program (even cases) or after every real action, allocate first (odd cases). Non-trivial (queue) = at least 2 observations."
 	return out.Flush()
 }
